@@ -324,50 +324,28 @@ theorem belowInner_neg (I : Island ℝ) (s : Summit) (inner : ℝ) :
     belowInner (negI I) s inner = belowInner I s inner := by
   simp only [belowInner, boxSnr_neg]
 
-/-! ### amplitude bounds -/
+/-! ### what the negation theorems need of the regenerated leaves -/
 
-theorem ampBounds_neg (amp r inner outer samp : ℝ) (h : amp ≠ 0) :
-    ampBounds (-amp) r inner outer samp
-      = (-(ampBounds amp r inner outer samp).2, -(ampBounds amp r inner outer samp).1) := by
-  rcases lt_or_gt_of_ne h with hneg | hpos
-  · have h1 : (0 : ℝ) < -amp := by linarith
-    have h2 : ¬ ((0 : ℝ) < amp) := by linarith
-    simp only [ampBounds, lt_real, zero_real, h1, h2, decide_true, decide_false, if_true,
-      Bool.false_eq_true, if_false, R.real_min, R.real_max]
-    rw [Prod.mk.injEq]
-    constructor
-    · rw [show outer * r = -(-outer * r) by ring, min_neg_neg]; ring
-    · ring
-  · have h1 : ¬ ((0 : ℝ) < -amp) := by linarith
-    simp only [ampBounds, lt_real, zero_real, h1, hpos, decide_true, decide_false, if_true,
-      Bool.false_eq_true, if_false, R.real_min, R.real_max]
-    rw [Prod.mk.injEq]
-    constructor
-    · ring
-    · rw [show -outer * r = -(outer * r) by ring, max_neg_neg]; ring
+/-- the obligations on the regenerated arithmetic leaves (discharged for `genLeaves` in
+    `Properties/C13.lean`, where they break if the source changes meaning) -/
+structure LeavesMirror (L : Leaves ℝ) : Prop where
+  /-- the bounds of `−amp` are the bounds of `amp`, negated and swapped -/
+  bounds : ∀ amp r inner outer samp : ℝ, amp ≠ 0 →
+    ampBounds L (-amp) r inner outer samp
+      = (-(ampBounds L amp r inner outer samp).2, -(ampBounds L amp r inner outer samp).1)
+  /-- the thresholded quantity of the negative mask at `−d` is minus that of the positive mask at `d` -/
+  summit : ∀ d r inner outer : ℝ, L.summitArgNeg (-d) r inner outer = -L.summitArgPos d r inner outer
 
-/-- the admissible amplitude interval of a positive summit lies strictly above 0 … -/
-theorem ampBounds_pos (amp r inner outer samp : ℝ) (ha : 0 < amp) (hr : 0 < outer * r) :
-    0 < (ampBounds amp r inner outer samp).1 := by
-  simp only [ampBounds, lt_real, zero_real, ha, decide_true, if_true, R.real_min]
-  have h95 : (0 : ℝ) < (c095 : ℝ) := by
-    simp only [c095, R.real_ofSci]; norm_num
-  exact mul_pos h95 (lt_min hr ha)
-
-/-- … and that of a negative summit strictly below 0 -/
-theorem ampBounds_neg_side (amp r inner outer samp : ℝ) (ha : amp < 0) (hr : 0 < outer * r) :
-    (ampBounds amp r inner outer samp).2 < 0 := by
-  have h2 : ¬ ((0 : ℝ) < amp) := by linarith
-  simp only [ampBounds, lt_real, zero_real, h2, decide_false, Bool.false_eq_true, if_false, R.real_max]
-  have h95 : (0 : ℝ) < (c095 : ℝ) := by
-    simp only [c095, R.real_ofSci]; norm_num
-  have : max (-outer * r) amp < 0 := max_lt (by linarith) ha
-  exact mul_neg_of_pos_of_neg h95 this
+theorem LeavesMirror.summit' {L : Leaves ℝ} (h : LeavesMirror L) (d r inner outer : ℝ) :
+    L.summitArgPos (-d) r inner outer = -L.summitArgNeg d r inner outer := by
+  have := h.summit (-d) r inner outer
+  rw [neg_neg] at this
+  rw [this, neg_neg]
 
 /-! ### the loop and the whole estimate -/
 
-theorem summitMask_neg (I : Island ℝ) (neg : Bool) (outer : ℝ) :
-    summitMask (!neg) (negI I) outer = summitMask neg I outer := by
+theorem summitMask_neg (I : Island ℝ) (neg : Bool) (P : Params ℝ) (hL : LeavesMirror P.leaves) :
+    summitMask (!neg) (negI I) P = summitMask neg I P := by
   funext p
   simp only [summitMask, negI, negImg]
   cases h : I.data p with
@@ -375,14 +353,16 @@ theorem summitMask_neg (I : Island ℝ) (neg : Bool) (outer : ℝ) :
   | some d =>
     simp only [Option.map_some, lt_real, zero_real]
     cases neg
-    · simp only [Bool.not_false, if_true, Bool.false_eq_true, if_false]
+    · simp only [Bool.not_false, if_true, Bool.false_eq_true, if_false, hL.summit]
       have e1 : (1 ≤ -I.curve p) ↔ (I.curve p ≤ -1) := by omega
-      have e2 : (-d + outer * I.rms p < 0) ↔ (0 < d - outer * I.rms p) := by
+      have e2 : (-P.leaves.summitArgPos d (I.rms p) P.inner P.outer < 0)
+          ↔ (0 < P.leaves.summitArgPos d (I.rms p) P.inner P.outer) := by
         constructor <;> intro h <;> linarith
       simp only [e1, e2]
-    · simp only [Bool.not_true, if_true, Bool.false_eq_true, if_false]
+    · simp only [Bool.not_true, if_true, Bool.false_eq_true, if_false, hL.summit']
       have e1 : (-I.curve p ≤ -1) ↔ (1 ≤ I.curve p) := by omega
-      have e2 : (0 < -d - outer * I.rms p) ↔ (d + outer * I.rms p < 0) := by
+      have e2 : (0 < -P.leaves.summitArgNeg d (I.rms p) P.inner P.outer)
+          ↔ (P.leaves.summitArgNeg d (I.rms p) P.inner P.outer < 0) := by
         constructor <;> intro h <;> linarith
       simp only [e1, e2]
 
@@ -393,7 +373,7 @@ theorem wholeSummit_neg (I : Island ℝ) : wholeSummit (negI I) = wholeSummit I 
   simp only [wholeSummit, finitePx_neg, List.map_map]
   congr 1
 
-theorem loop_neg (P : Params ℝ) (I : Island ℝ) (hnz : ∀ p v, I.data p = some v → v ≠ 0)
+theorem loop_neg (P : Params ℝ) (hL : LeavesMirror P.leaves) (I : Island ℝ) (hnz : ∀ p v, I.data p = some v → v ≠ 0)
     (neg : Bool) (fl : Nat) (l : List Summit) (i : Nat) :
     loop P (negI I) (!neg) fl i l = (loop P I neg fl i l).map negC := by
   induction l generalizing i with
@@ -415,7 +395,7 @@ theorem loop_neg (P : Params ℝ) (I : Island ℝ) (hnz : ∀ p v, I.data p = so
         have hne := hnz p amp hmem
         have hr : (negI I).rms = I.rms := rfl
         have hsm : (negI I).sampling = I.sampling := rfl
-        simp only [List.map_cons, ih (i + 1), hr, hsm, ampBounds_neg _ _ _ _ _ hne, negC]
+        simp only [List.map_cons, ih (i + 1), hr, hsm, hL.bounds _ _ _ _ _ hne, negC]
 
 /-- all finite pixels strictly positive, or all strictly negative -/
 def SingleSign (I : Island ℝ) : Prop :=
@@ -454,14 +434,15 @@ theorem singleSign_ne_zero {I : Island ℝ} (hs : SingleSign I) : ∀ p v, I.dat
   · exact ne_of_gt (hp p v h)
   · exact ne_of_lt (hn p v h)
 
-theorem estimate_neg (P : Params ℝ) (I : Island ℝ) (hs : SingleSign I) (hne : finitePx I ≠ []) :
+theorem estimate_neg (P : Params ℝ) (hL : LeavesMirror P.leaves) (I : Island ℝ) (hs : SingleSign I)
+    (hne : finitePx I ≠ []) :
     estimate P (negI I) = (estimate P I).map (List.map negC) := by
   have hlen : (finitePx (negI I)).length = (finitePx I).length := by
     rw [finitePx_neg, List.length_map]
   have hh : (negI I).h = I.h := rfl
   have hw : (negI I).w = I.w := rfl
-  simp only [estimate, isNegative_neg I hs hne, hlen, hh, hw, summitMask_neg, wholeSummit_neg,
-    sortSummits_neg, loop_neg P I (singleSign_ne_zero hs)]
+  simp only [estimate, isNegative_neg I hs hne, hlen, hh, hw, summitMask_neg _ _ P hL, wholeSummit_neg,
+    sortSummits_neg, loop_neg P hL I (singleSign_ne_zero hs)]
   split <;> split <;> rfl
 
 /-! ### objective -/
